@@ -77,7 +77,12 @@ class Sc:
     def peek(self, hn):
         i = self.op("ledger peek " + hn, "peek")
         st = self.handles.get(hn)
-        self.peek_at.append((i, hn, dict(st) if st else None))
+        meta = dict(st) if st else None
+        # the harness's own blocks and descriptors at this point, over ALL open handles (several may be open at once)
+        world = dict(nck=sum(h["nchunks"] + (1 if h["nchunks"] else 0) for h in self.handles.values()),
+                     fd0=sum(1 for h in self.handles.values() if h["route"] == "fd0"),
+                     alacw=any((h["fmt"] & 0xFFF0) == 0x70 and h["mode"] == "w" for h in self.handles.values()))
+        self.peek_at.append((i, hn, meta, world))
 
     def open(self, hn, store, mode, fmt, ch, route="vio", sr=8000, existing=False, frames=False, ext="x"):
         f = fmt if (mode != "r" or (fmt >> 16) & 0xFFF == 0x04) else 0
@@ -192,6 +197,40 @@ def gen_wellformed(ctx, fmts, per_fmt, rng):
             sc.close("h1")
             sc.end()
             out.append(sc)
+    return out
+
+
+def gen_concurrent(ctx, fmts, rng, n):
+    """several handles open at the same time on different stores: opens, histories and closes interleave"""
+    out = []
+    pool = [f for f in fmts if f.major != 0x16]
+    routes = ["vio", "path", "fd1", "fd0"]
+    for k in range(n):
+        sc = Sc("conc-%d" % k, "concurrent")
+        nh = rng.choice([2, 2, 3])
+        live = []
+        for j in range(nh):
+            f = rng.choice(pool)
+            ch = 1 if f.maxch < 2 or rng.random() < 0.5 else 2
+            hn = "h%d" % j
+            sc.open(hn, "s%d" % j, "w", f.word, ch, rng.choice(routes))
+            live.append((hn, ch))
+            hn2, ch2 = rng.choice(live)
+            history(sc, rng, hn2, ch2, rng.choice([1, 2, 3]))
+        for _ in range(rng.choice([2, 4, 6])):
+            hn2, ch2 = rng.choice(live)
+            if rng.random() < 0.3:
+                sc.op(data_line(hn2, ch2, 16, rng), "write 1")
+                sc.peek(hn2)
+            else:
+                history(sc, rng, hn2, ch2, 1)
+        rng.shuffle(live)
+        for idx, (hn2, ch2) in enumerate(live):
+            sc.close(hn2)
+            for (hn3, ch3) in live[idx + 1:]:
+                sc.peek(hn3)         # closing one handle leaves the others as they were
+        sc.end()
+        out.append(sc)
     return out
 
 
@@ -487,6 +526,9 @@ def model_script(sc, t):
     lines = ["== " + sc.name]
     if len(t) != len(sc.h):
         return None
+    def at(i):
+        hs = [x for x in sc.h[i].split() if re.match(r"^h\d+$", x)]
+        return "@%s " % hs[0][1:] if hs else ""
     for (i, ml) in sc.m:
         if isinstance(ml, tuple):
             st = ml[1]
@@ -507,16 +549,16 @@ def model_script(sc, t):
                     evs += ["mark", "cue"] if cont == "aiff" else ["cue"]
             route = {"vio": "vio", "path": "path", "fd1": "fd1", "fd0": "fd0"}[st["route"]]
             existing = st["existing"] and st["mode"] == "rw"
-            lines.append("open route=%s mode=%s cont=%s codec=%s float=%d existing=%d frames=%d evs=%s fail=%s" % (
+            lines.append(at(i) + "open route=%s mode=%s cont=%s codec=%s float=%d existing=%d frames=%d evs=%s fail=%s" % (
                 route, st["mode"], cont_class(major), codec_class(major, codec, "parse" if (st["mode"] == "r" or existing) else "rw-empty" if st["mode"] == "rw" else "w"),
                 1 if codec in (6, 7) else 0, 1 if existing else 0, 1 if (existing and int(kv(t[i]).get("frames", "0")) > 0) else 0, ",".join(evs) or "-",
                 "none" if ok else str(i % 7)))
         elif ml == "write 1":
             # have_written is set once the call got past its own checks (mode, alignment, a write function exists): the call reports that by writing something
             m = re.match(r"ret=(-?\d+)", t[i])
-            lines.append("write 1" if (m and int(m.group(1)) > 0) else "write 0")
+            lines.append(at(i) + ("write 1" if (m and int(m.group(1)) > 0) else "write 0"))
         else:
-            lines.append(ml)
+            lines.append(at(i) + ml)
     return "\n".join(lines) + "\n"
 
 
@@ -528,7 +570,7 @@ def compare(sc, t, mout):
     mpeeks = [l for l in mout if l.startswith("mask=")]
     if len(mpeeks) != len(sc.peek_at):
         return "model produced %d peek lines for %d peeks" % (len(mpeeks), len(sc.peek_at))
-    for (pi, (i, hn, st)), ml in zip(enumerate(sc.peek_at), mpeeks):
+    for (pi, (i, hn, st, world)), ml in zip(enumerate(sc.peek_at), mpeeks):
         il = t[i]
         a, b = kv(il), kv(ml)
         if a.get("mask") == "closed" or b.get("mask") == "closed":
@@ -544,15 +586,13 @@ def compare(sc, t, mout):
                 return "op %d (%s): %s differs: implementation `%s`, model `%s`" % (i, sc.h[i - 1], k, il, ml)
         # live heap blocks: the harness's own blocks (stores, chunk payload copies it must keep until close) are known
         hb = int(a.get("hblocks", 0))
-        nck = st["nchunks"] if st else 0
-        lib = int(a["blocks"]) - hb - (nck + (1 if nck else 0))
+        lib = int(a["blocks"]) - hb - world["nck"]
         want = int(b["blocks"])
-        fmt = st["fmt"] if st else 0
-        slack = 1 if (st and (fmt & 0xFFF0) == 0x70 and st["mode"] == "w") else 0       # stdio buffer of ALAC's spool FILE, allocated at its first flush
+        slack = 1 if world["alacw"] else 0       # stdio buffer of ALAC's spool FILE, allocated at its first flush
         if not (want <= lib <= want + slack):
             return "op %d (%s): live heap blocks: implementation %d, model %d  [%s | %s]" % (i, sc.h[i - 1], lib, want, il, ml)
         nfd = int(a.get("nfd", 0))
-        wantfd = int(b["fds"]) + (1 if (st and st["route"] == "fd0" and a.get("mask") != "closed") else 0)
+        wantfd = int(b["fds"]) + world["fd0"] - (1 if (st and st["route"] == "fd0" and a.get("mask") == "closed") else 0)
         if nfd != wantfd:
             return "op %d (%s): open descriptors: implementation %d, model %d  [%s | %s]" % (i, sc.h[i - 1], nfd, wantfd, il, ml)
     last = mpeeks[-1] if mpeeks else ""
@@ -668,6 +708,7 @@ def run(ctx):
     scs = []
     scs += gen_wellformed(ctx, fmts, 1 if quick else 4, rng)
     scs += gen_fixed(ctx, rng)
+    scs += gen_concurrent(ctx, fmts, rng, 120 if quick else 1200)
     scs += gen_failing(ctx, fmts, rng)
     scs += gen_sd2(ctx, rng, 32 if quick else 160)
     seeds = make_seeds(ctx, seed_formats(fmts))
